@@ -138,7 +138,7 @@ def OPS():
     """name -> (mutates, fn(c, x, model, pool) -> new x) ; fn applies to both object and model and judges itself"""
     return ['append', 'append_multi', 'append_other', 'extend_multi', 'extend_single', 'extend_other', 'insert0', 'insert_neg',
             'insert_far', 'insert_other', 'set_other', 'pop', 'pop0', 'pop_far', 'del0', 'del_neg', 'del_far', 'set0', 'set_neg', 'set_far', 'set_multi',
-            'reverse', 'clear', 'copy']
+            'reverse', 'clear', 'copy', 'append_empty', 'insert_empty', 'set_empty', 'extend_empty', 'insert_multi']
 
 
 MUTATORS = set(OPS()) - {'copy'}
@@ -262,6 +262,23 @@ def apply_op(ctx, c, x, model, name, pool, k, sig, what):
             def so2():
                 x[0] = y
             expect_arg_error(so2, 'setitem(multi-valued)')
+    elif name in ('append_empty', 'insert_empty', 'set_empty'):
+        # an object holding no value is not a single value either: nothing a list element could be
+        y = C.Empty()
+        if name == 'append_empty':
+            expect_arg_error(lambda: x.append(y), 'append(Empty())')
+        elif name == 'insert_empty':
+            expect_arg_error(lambda: x.insert(0, y), 'insert(0, Empty())')
+        elif len(model) > 0:
+            def soe():
+                x[0] = y
+            expect_arg_error(soe, 'setitem(Empty())')
+    elif name == 'extend_empty':
+        y = C.Empty()
+        both(lambda: x.extend(y), lambda m: m.extend([]), 'extend(Empty())')
+    elif name == 'insert_multi':
+        y = from_list(c, [a, b])
+        expect_arg_error(lambda: x.insert(0, y), 'insert(multi-valued)')
     elif name == 'reverse':
         both(lambda: x.reverse(), lambda m: m.reverse(), 'reverse')
     elif name == 'clear':
@@ -366,7 +383,62 @@ def run_ctor(ctx, p):
     ctx.cell('ctor', c, n)
 
 
-RUNNERS = {'history': run_history, 'slices': run_slices, 'ctor': run_ctor}
+def run_ctorlist(ctx, p):
+    """construction from a list of objects: pattern letters O = own-class single value, F = single value of another class,
+    M = own-class object holding two values, E = own-class Empty(). Only all-O lists may be accepted (and must then equal the
+    list of the element values); everything else must raise.  UnitQuaternion documents conversion from SO3/SE3 (also in lists):
+    such lists must give unit quaternions of the same rotations instead."""
+    c, d, pat = p['cls'], p['other'], p['pat']
+    pool = [np.asarray(a, dtype=np.float64) for a in p['pool']]
+    opool = [np.asarray(a, dtype=np.float64) for a in p['opool']]
+    C = getattr(S(), c)
+    sig = dict(api=c, op='construct_from_list', item='multi-valued' if 'M' in pat else 'empty' if 'E' in pat else 'other class' if 'F' in pat else 'own')
+    items, model = [], []
+    for k, ch in enumerate(pat):
+        if ch == 'O':
+            o, v = single(c, pool[k])
+            items.append(o)
+            model.append(v)
+        elif ch == 'F':
+            items.append(single(d, opool[k])[0])
+        elif ch == 'M':
+            items.append(from_list(c, [pool[k], pool[k + 3]]))
+        else:
+            items.append(C.Empty())
+    snap = [[np.array(v, copy=True) for v in it.data] for it in items]
+    try:
+        x = C(list(items))
+        err = None
+    except Exception as e:
+        x, err = None, e
+    what = lambda: '%s([%s]) (F = %s)' % (c, ', '.join(pat), d)
+    if c == 'UnitQuaternion' and d in ('SO3', 'SE3') and 'F' in pat and set(pat) <= {'O', 'F'}:
+        # documented conversion; if accepted, every element must be the unit quaternion of the corresponding rotation
+        if err is None:
+            ok = type(x) is C and len(x.data) == len(items) and all(
+                isinstance(v, np.ndarray) and v.shape == (4,) and abs(np.linalg.norm(v) - 1) < 1e-12 and
+                np.allclose(S().base.q2r(v), np.asarray(it.R), atol=1e-12) for v, it in zip(x.data, items))
+            ctx.judge('state', ok, dict(sig, kind='conversion_list_wrong'), lambda: '%s holds %s' % (what(), core.short(x.data, 300)))
+        else:
+            ctx.ok('errors')
+    elif set(pat) == {'O'}:
+        if err is not None:
+            ctx.bad('state', dict(sig, kind='construct_raised', exc=type(err).__name__), '%s raised %r' % (what(), err))
+        else:
+            ctx.judge('state', type(x) is C, dict(sig, kind='wrong_class'), lambda: '%s gives a %s' % (what(), type(x).__name__))
+            state_ok(ctx, c, x, model, sig, what)
+    else:
+        d_ = getattr(x, 'data', None)
+        ctx.judge('errors', err is not None, dict(sig, kind='bad_list_accepted'),
+                  lambda: '%s must raise; it returned a %s of length %s holding elements of shape %s' % (
+                      what(), type(x).__name__, len(d_) if isinstance(d_, list) else '?', [np.shape(v) for v in d_] if isinstance(d_, list) else d_))
+    same = all(len(it.data) == len(sn) and all(np.array_equal(a, b) for a, b in zip(it.data, sn)) for it, sn in zip(items, snap))
+    ctx.judge('errors', same, dict(sig, kind='list_items_modified'), lambda: '%s modified the objects in the list' % what())
+    ctx.cell('ctorlist', c, pat, d if 'F' in pat else '-')
+    ctx.nontrivial('ctorlist', c, d if 'F' in pat else '-', pat)
+
+
+RUNNERS = {'history': run_history, 'slices': run_slices, 'ctor': run_ctor, 'ctorlist': run_ctorlist}
 
 
 def REACH():
@@ -389,6 +461,23 @@ def run(ctx):
             if ctx.mine(i):
                 drive(RUNNERS, ctx, 'slices', dict(cls=c, n=n, pool=pools[c]))
                 drive(RUNNERS, ctx, 'ctor', dict(cls=c, n=n))
+    # (a') constructor from every list pattern of length <= 3 over own / foreign / multi-valued / empty objects
+    allc = CLASSES + EXTRA
+    for c in allc:
+        pats = [''.join(t) for L in (1, 2, 3) for t in itertools.product('OF', repeat=L)]
+        for d in allc:
+            if d == c:
+                continue
+            for pat in pats:
+                if 'F' not in pat:
+                    continue
+                i += 1
+                if ctx.mine(i):
+                    drive(RUNNERS, ctx, 'ctorlist', dict(cls=c, other=d, pat=pat, pool=pools[c], opool=pools[d]))
+        for pat in [''.join(t) for L in (1, 2, 3) for t in itertools.product('OME', repeat=L)]:
+            i += 1
+            if ctx.mine(i):
+                drive(RUNNERS, ctx, 'ctorlist', dict(cls=c, other=OTHER[c], pat=pat, pool=pools[c], opool=pools[OTHER[c]]))
     # (b) exhaustive short histories
     ops = OPS()
     maxlen = {c: 2 for c in CLASSES + EXTRA}
